@@ -20,9 +20,9 @@ def run(rep, tier, seed):
     from harness.c09 import load_log_all
     wd = workdir(pid, "shapes", wipe=True)
     shapes = 0
-    for cfg in (["MC_Shapes.cfg", "MC_Fields.cfg"] if tier == "quick" else ["MC_Shapes.cfg", "MC_Shapes6.cfg", "MC_Fields.cfg"]):
+    for cfg in (["MC_Shapes.cfg", "MC_Fields.cfg", "MC_FieldsMaps.cfg"] if tier == "quick" else ["MC_Shapes.cfg", "MC_Shapes6.cfg", "MC_Fields.cfg", "MC_FieldsMaps.cfg"]):
         out = os.path.join(wd, "shapes.out")
-        r = run_tlc(cfg.split(".")[0].rstrip("6"), cfg=os.path.join(SPEC, cfg), stdout_path=out, timeout=2400)
+        r = run_tlc("MC_Shapes" if "Shapes" in cfg else "MC_Fields", cfg=os.path.join(SPEC, cfg), stdout_path=out, timeout=2400)
         if not r.ok or r.invariant_violated:
             raise MachineryError(f"{cfg}: the encoding / oracle is wrong:\n" + r.out[-1500:])
         rep.add_tlc(r, cfg + (" (all pairs of ordered labelled trees)" if "Shapes" in cfg else " (all pairs of nodes over adversarial field universes, alone and as only children)"))
@@ -36,6 +36,41 @@ def run(rep, tier, seed):
             for key, det, replay in outl:
                 rep.violation(f"{pid}:{key}", det[:500], replay)
     rep.notes["shape_pairs_compared"] = shapes
+    # large instances: deep chains / wide fans, compared with their copy before and after one edit at the far end (TLC: TreeEq)
+    from harness.common import judge_traces
+    from harness.world import World
+    from harness.c12 import ALLF
+    traces = []
+    for shape, size in (("chain", 70), ("chain", 150), ("chain", 300), ("fan", 400)):
+        kids = [[] for _ in range(size)]
+        for i in range(2, size + 1):
+            kids[(i - 2) if shape == "chain" else 0].append(i)
+        w = World.build({"name": ["a" if i % 3 else "b" for i in range(size)], "kids": kids})
+        tr = {"init": w.pi(ALLF), "events": [], "desc": {"shape": shape, "nodes": size}}
+        ok, ret, exc = w.apply("copy", [1])
+        tr["events"].append({"op": "copy", "args": [1], "ok": ok, "ret": ret if isinstance(ret, int) else 0, "post": w.pi(ALLF)})
+
+        def ask(a, b):
+            try:
+                got = bool(Node_is_equal(w.n(a), w.n(b)))
+            except Exception as e:  # noqa: BLE001
+                got = "raised:" + type(e).__name__
+            tr["events"].append({"op": "q", "q": "is_equal", "args": [a, b], "ret": got, "post": w.pi(ALLF)})
+        from metapype.model.node import Node as _N
+        Node_is_equal = _N.is_equal
+        ask(1, size + 1)
+        ask(size + 1, 1)
+        w.n(2 * size).content = "edited at the far end"          # the last node of the copy
+        tr["events"].append({"op": "resync", "args": [], "ok": True, "ret": 0, "post": w.pi(ALLF)})
+        ask(1, size + 1)
+        ask(size + 1, 1)
+        traces.append(tr)
+    rejects, rr = judge_traces([{"init": t["init"], "events": t["events"]} for t in traces], pid, label="large-pairs", timeout=3000)
+    for rj in rejects:
+        tr = traces[rj["trace"] - 1]
+        rep.violation(f"{pid}:is_equal:large:{','.join(sorted(rj['clauses']))}", f"{tr['desc']}: event {tr['events'][rj['event'] - 1]}"[:400],
+                      {"kind": "large-pair", "desc": tr["desc"], "event": rj["event"], "clauses": rj["clauses"]})
+    rep.notes["large_pairs"] = [t["desc"] for t in traces]
     rep.notes["states_compared"] = nS
     rep.notes["ordered_pairs_compared"] = npairs
     e = E[len(E) // 2]
